@@ -22,6 +22,7 @@ EXPLANATION = (
     'measurement\'s key on both branches, the delta being prev->Diff(current). C17.R5 (last-write-wins): ObserverResultT::Observe '
     'stores with an overwriting form. C17.R6: the reader fan-out rules of buildMetrics (C06.R3) hold, so a delta reader gets the '
     'difference from what that same reader was last given.')
+EXPLANATION += ' C17.R1 also requires RemoveCallback to compare every field AddCallback stores. C17.R5 (decision tables by conditional constant propagation over the enumerators): an explicit Sum view gives each instrument type the monotonicity the default selection gives it; MetricCollector::GetAggregationTemporality returns cumulative on every path for (delta, synchronous gauge).'
 NOT_DECIDED = 'numeric deltas across readers over arbitrary histories.'
 
 
